@@ -376,13 +376,18 @@ fn sandbox() -> &'static std::path::PathBuf {
         let (src, _) = textgen::program(&mut rng);
         std::fs::write(p.join("progs/sub/a-rather-long-file-name-for-the-info-pane-of-the-sidebar.asm"), src).expect("sandbox file");
         std::fs::write(p.join("bad.asm"), textgen::broken_program(&mut rng)).expect("sandbox file");
+        // two names that differ inside a multi-byte character with the same lead byte (completion)
+        std::fs::write(p.join("prog-ä.asm"), "#! mrasm\n    INC R0\n    STOP\n").expect("sandbox file");
+        std::fs::write(p.join("prog-ö.asm"), "#! mrasm\n    INC R1\n    STOP\n").expect("sandbox file");
+        // drives both DACs high (comparator bits fall), then stops
+        std::fs::write(p.join("dac.asm"), "#! mrasm\n    LD R0, 200\n    ST (0xF0), R0\n    ST (0xF1), R0\n    STOP\n").expect("sandbox file");
         std::fs::write(p.join("nonutf8.asm"), [0x23u8, 0x21, 0x20, 0xFF, 0xFE, 0x0A]).expect("sandbox file");
         std::env::set_current_dir(&p).expect("chdir sandbox");
         p
     })
 }
 
-pub const LOAD_TARGETS: [&str; 14] = ["umlaut-lines.asm", "verybad.asm", "progs/sub/a-rather-long-file-name-for-the-info-pane-of-the-sidebar.asm", "long.asm", "good.asm", "progs/a.asm", "progs/b.asm", "progs/sub/c.asm", "with space.asm", "ümlaut.asm", "bad.asm", "nonutf8.asm", "missing.asm", "progs"];
+pub const LOAD_TARGETS: [&str; 17] = ["prog-ä.asm", "prog-ö.asm", "dac.asm", "umlaut-lines.asm", "verybad.asm", "progs/sub/a-rather-long-file-name-for-the-info-pane-of-the-sidebar.asm", "long.asm", "good.asm", "progs/a.asm", "progs/b.asm", "progs/sub/c.asm", "with space.asm", "ümlaut.asm", "bad.asm", "nonutf8.asm", "missing.asm", "progs"];
 
 fn key_of(name: &str) -> Option<KeyCode> {
     Some(match name {
@@ -547,6 +552,7 @@ fn run(scn: &Scn, ctx: &mut Ctx) -> Result<(), Violation> {
     }
     // expand Line events
     let mut flat: Vec<(usize, Ev)> = vec![];
+    let mut submitted = 0u32;
     for (i, e) in scn.events.iter().enumerate() {
         match e {
             Ev::Line(l) => {
@@ -557,6 +563,9 @@ fn run(scn: &Scn, ctx: &mut Ctx) -> Result<(), Violation> {
             }
             o => flat.push((i, o.clone())),
         }
+    }
+    if submitted > 1000 {
+        ctx.cov.probe("more-than-1000-lines-submitted-in-one-session");
     }
     for (i, e) in flat.iter() {
         let i = *i;
@@ -787,11 +796,11 @@ fn run(scn: &Scn, ctx: &mut Ctx) -> Result<(), Violation> {
 
 // ------------------------------------------------------------------------------------------------
 
-const FRAGMENTS: [&str; 34] = [
-    "load ", "set ", "unset ", "show ", "next ", "quit", "FC = ", "FD = ", "FE = ", "FF = ", "IRG = ", "TEMP = ", "I1 = ", "I2 = ", "J1", "J2", "UIO1", "UIO2", "UIO3",
+const FRAGMENTS: [&str; 38] = [
+    "load prog-", "load pro", "prog-", "dac.asm", "load ", "set ", "unset ", "show ", "next ", "quit", "FC = ", "FD = ", "FE = ", "FF = ", "IRG = ", "TEMP = ", "I1 = ", "I2 = ", "J1", "J2", "UIO1", "UIO2", "UIO3",
     "memory", "register", "0x", "0b", "255", "256", "1.5", "F", "l", "s", "progs/", "good.asm", " ", "=", "x",
 ];
-const MULTIBYTE: [char; 8] = ['é', 'ß', '→', '漢', '😀', 'ü', 'Ω', '\u{301}'];
+const MULTIBYTE: [char; 13] = ['é', 'ß', '→', '漢', '😀', 'ü', 'Ω', '\u{301}', 'İ', 'ı', 'ſ', '\u{212A}', 'ö'];
 const EDIT_KEYS: [&str; 11] = ["Enter", "Tab", "BackTab", "Left", "Right", "Up", "Down", "Home", "End", "Backspace", "Delete"];
 
 fn rnd_case(rng: &mut Rng, s: &str) -> String {
@@ -919,7 +928,7 @@ pub fn command_line(rng: &mut Rng) -> String {
         }
         _ => {
             // not a command at all
-            l.push_str(*rng.pick(&["help", "FB = 1", "reset", "é", "set", "unset", "load", "= 5", "FC 5", "set FC", "set TEMP", "漢字", "F", "Fé"]));
+            l.push_str(*rng.pick(&["help", "FB = 1", "reset", "é", "set", "unset", "load", "= 5", "FC 5", "set FC", "set TEMP", "漢字", "F", "Fé", "set İ1 = 2", "set İRG = 5", "ſet J1", "SET ı1 = 1", "unſet J1", "\u{212A}", "set UİO1", "qUİT", "İ"]));
         }
     }
     match rng.below(10) {
@@ -1019,6 +1028,46 @@ impl Check for C17 {
     fn generate(&self, rng: &mut Rng, tier: Tier, idx: u64) -> Scn {
         if idx < enum_count(tier) {
             return enum_scn(idx, enum_len(tier));
+        }
+        // scripted families (ordered interplay a random session would rarely produce)
+        if idx == enum_count(tier) || (tier == Tier::Thorough && (idx - enum_count(tier)) % 20_000 == 0) {
+            // marathon: more than a thousand submitted lines in one session (history growth)
+            let mut events = vec![];
+            let n = 1001 + rng.below(60);
+            for k in 0..n {
+                events.push(Ev::Line(match k % 4 {
+                    0 => format!("FC = {}", k % 256),
+                    1 => format!("fd={}", (k * 7) % 256),
+                    2 => format!("set irg = {}", (k * 13) % 256),
+                    _ => format!("FE = 0x{:X}", (k * 3) % 256),
+                }));
+            }
+            for _ in 0..6 {
+                events.push(Ev::Key("Up".into()));
+            }
+            events.push(Ev::Key("Enter".into()));
+            return Scn { w: 100, h: 40, preload: false, autorun: 0, events, init: [0; 6] };
+        }
+        if rng.chance(1, 40) {
+            // the same setter twice with a program run and a load in between
+            let which = *rng.pick(&["TEMP", "I1", "I2"]);
+            let val = float_value(rng);
+            let setter = format!("set {} = {}", which, val);
+            let mut events = vec![Ev::Line(setter.clone()), Ev::Line("load dac.asm".into())];
+            if rng.bool() {
+                events.push(Ev::Line(format!("next {}", 30 + rng.below(40))));
+            } else {
+                for _ in 0..30 + rng.below(30) {
+                    events.push(Ev::Key("Enter".into()));
+                }
+            }
+            events.push(Ev::Line(format!("load {}", rng.pick(&LOAD_TARGETS))));
+            if rng.bool() {
+                events.push(Ev::Ctrl('r'));
+            }
+            events.push(Ev::Line(setter));
+            events.push(Ev::Line(command_line(rng)));
+            return Scn { w: 100, h: 40, preload: rng.bool(), autorun: 0, events, init: [0; 6] };
         }
         let (w, h) = if rng.chance(2, 3) { (100, 40) } else { random_size(rng) };
         let span = if rng.chance(1, 4) { 200 } else { 40 };
